@@ -881,6 +881,74 @@ def purity_of_solutions(rep):
         raise AnalysisError(f"solution modules: only {n} functions found")
 
 
+def pointwise(rep):
+    """`at every ... position`: the value a solution function returns at a point is computed
+    from the coordinates of that point.  Necessary structural condition, for every function of
+    a solution module that takes position arguments: a coordinate argument is never rebound,
+    and neither the coordinate arrays nor the constant arrays shaped like them (np.zeros /
+    np.ones of their shape, aliases, slices) are subscripted, rolled, flipped or transposed --
+    each of those makes a value depend on the position of the point in the array or on the
+    layout of the input instead of its coordinates."""
+    S = rep.sources
+    n = 0
+    COORD = ("x", "y", "z")
+    MOVE = ("roll", "flip", "transpose", "swapaxes", "moveaxis", "flipud", "fliplr", "rot90")
+    for rel in S.all_py():
+        if not rel.startswith(SOL + "/") or rel.endswith("__init__.py"):
+            continue
+        tree = S.module(rel)
+        for fn in [x for x in ast.walk(tree) if isinstance(x, ast.FunctionDef)]:
+            params = [a.arg for a in fn.args.args]
+            coords = [p_ for p_ in params if p_ in COORD]
+            if not coords:
+                continue
+            n += 1
+            key = f"{rel}::{fn.name}"
+            pa = set(coords)
+            changed = True
+            while changed:
+                changed = False
+                for a in ast.walk(fn):
+                    if not (isinstance(a, ast.Assign) and len(a.targets) == 1
+                            and isinstance(a.targets[0], ast.Name)):
+                        continue
+                    v, t = a.value, a.targets[0].id
+                    like = isinstance(v, ast.Call) and unparse(v.func).rsplit(".", 1)[-1] in (
+                        "zeros", "ones", "zeros_like", "ones_like", "full", "full_like",
+                        "empty", "empty_like") and any(
+                            isinstance(y, ast.Name) and y.id in pa for y in ast.walk(v))
+                    root = v
+                    while isinstance(root, ast.Subscript):
+                        root = root.value
+                    alias = isinstance(root, ast.Name) and root.id in pa
+                    if (like or alias) and t not in pa:
+                        pa.add(t)
+                        changed = True
+            bad = None
+            for x in ast.walk(fn):
+                if isinstance(x, ast.Name) and isinstance(x.ctx, (ast.Store, ast.Del)) \
+                        and x.id in coords + ["t"] and x.id in params:
+                    bad = (x, f"the coordinate argument `{x.id}` is rebound")
+                elif isinstance(x, ast.Subscript) and isinstance(x.value, ast.Name) \
+                        and x.value.id in pa:
+                    bad = (x, f"`{unparse(x)}` takes part of the point array `{x.value.id}`")
+                elif isinstance(x, ast.Call) and unparse(x.func).rsplit(".", 1)[-1] in MOVE \
+                        and any(isinstance(y, ast.Name) and y.id in pa
+                                for y in ast.walk(x)):
+                    bad = (x, f"`{unparse(x)[:50]}` moves the entries of a point array")
+                elif isinstance(x, ast.Attribute) and x.attr == "T" \
+                        and isinstance(x.value, ast.Name) and x.value.id in pa:
+                    bad = (x, f"`{unparse(x)}` transposes a point array")
+                if bad:
+                    break
+            rep.check(bad is None, "pointwise", key,
+                      (bad[1] if bad else "") + ": what is returned at a point then depends on "
+                      "where the point sits in the input arrays (their layout), not on its "
+                      "coordinates alone", node=bad[0] if bad else fn, file=rel)
+    if n < 40:
+        raise AnalysisError(f"solution modules: only {n} functions of position found")
+
+
 def run(rep):
     rep.explanation = (
         "Clause 1 of C17 (the numerical and the symbolic form of each bundled metric agree) is "
@@ -897,5 +965,6 @@ def run(rep):
     k_from_metric(rep)
     scaling(rep)
     purity_of_solutions(rep)
+    pointwise(rep)
     rep.floor("two-forms-agree", 12)
     rep.floor("component-axes", 12)
